@@ -286,3 +286,14 @@ def run(ck, prog):
     _run_c11(ck, prog)
     predictor_delegation(ck, prog)
     ck.floor("E1-sibling", 4)
+
+
+_run_pre_builders = run
+
+
+def run(ck, prog):
+    _run_pre_builders(ck, prog)
+    # every setting of the quantifier is reachable through the public builder chain: setters must not clobber other fields
+    from sa.builders import check_builders
+    check_builders(ck, prog, r"^naive_bayes::\w+::\w+NBParameters$")
+    ck.floor("E2-builder", 7)
